@@ -229,3 +229,37 @@ Proof.
   - exact nm0_inj.
   - exact nm0_fresh.
 Qed.
+
+(* ---- 7b. DisjunctiveConditionsRemover, the promised shape: no precondition, effect condition or goal of the compiled
+   problem is a disjunction.  Hypotheses: the DNF walker's disjuncts of an effect condition and the literals of a
+   precondition disjunct are not disjunctions themselves (C12), and neither are the goal conjuncts handed over. *)
+Theorem C08_LA_dcr_shape : forall cdnf pre_dnf nm P goals',
+  (forall c d, In d (cdnf c) -> is_or d = false) ->
+  (forall a d x, In d (pre_dnf a) -> In x d -> is_or x = false) ->
+  forallb (fun g => negb (is_or g)) goals' = true ->
+  dcr_shape (dcr_compile cdnf pre_dnf nm P goals') = true.
+Proof. exact dcr_shape_ok. Qed.
+Print Assumptions C08_LA_dcr_shape.
+
+(* a walker for the example: an Or is split into its arguments, anything else is its own single disjunct / literal *)
+Definition or_args (c : expr) : list expr := match c with EOr l => filter (fun x => negb (is_or x)) l | _ => [c] end.
+Definition EXD : problem :=
+  {| p_objs := []; p_ifun := [];
+     p_fluents := [ {| fd_id := 0%N; fd_sig := []; fd_ty := FBool |}; {| fd_id := 1%N; fd_sig := []; fd_ty := FBool |} ];
+     p_actions := [ (0%N, {| a_params := []; a_pre := [EOr [EFluent 0 []; EFluent 1 []]];
+                             a_effs := [ mkeff 0%N [] (EBool true) (EOr [EFluent 0 []; ENot (EFluent 1 [])]) KAssign [] true ] |}) ];
+     p_goals := [EFluent 0 []]; p_invs := [] |}.
+Example C08_LA_dcr_shape_nonvacuous :
+  dcr_shape EXD = false /\
+  dcr_shape (dcr_compile or_args (fun a => map (fun x => [x]) (flat_map or_args (a_pre a))) nm0 EXD (p_goals EXD)) = true /\
+  List.length (p_actions (dcr_compile or_args (fun a => map (fun x => [x]) (flat_map or_args (a_pre a))) nm0 EXD (p_goals EXD))) = 2%nat.
+Proof.
+  split; [vm_compute; reflexivity|]. split; [|vm_compute; reflexivity]. apply C08_LA_dcr_shape.
+  - intros c d H. unfold or_args in H. destruct c; try (destruct H as [<-|[]]; reflexivity).
+    apply filter_In in H. destruct H as [_ H]. apply negb_true_iff in H. exact H.
+  - intros a d x Hd Hx. apply in_map_iff in Hd. destruct Hd as [y [<- Hy]]. destruct Hx as [<-|[]].
+    apply in_flat_map in Hy. destruct Hy as [c [_ Hy]]. unfold or_args in Hy.
+    destruct c; try (destruct Hy as [<-|[]]; reflexivity).
+    apply filter_In in Hy. destruct Hy as [_ Hy]. apply negb_true_iff in Hy. exact Hy.
+  - vm_compute. reflexivity.
+Qed.
